@@ -112,6 +112,19 @@ func genFixture(r *core.Run) *fixture {
 		f.pols = append(f.pols, &p)
 		f.texts = append(f.texts, txt)
 	}
+	if r.T.Intn(3) == 2 && len(f.ids) > 0 {
+		// the same set, but loaded from JSON (a different construction path)
+		if b, err := f.ps.MarshalJSON(); err == nil {
+			var ps2 cedar.PolicySet
+			if err := ps2.UnmarshalJSON(b); err == nil {
+				f.ps = &ps2
+				f.pols = f.pols[:0]
+				for _, id := range f.ids {
+					f.pols = append(f.pols, ps2.Get(id))
+				}
+			}
+		}
+	}
 	f.ents = g.Entities()
 	if r.T.Intn(4) == 3 {
 		// a legal Go value: the entity's own UID field left at its zero value
@@ -297,6 +310,13 @@ func (f *fixture) operations() []operation {
 	add("Policy.AST/Annotations/Position/Effect", func() string {
 		var sb strings.Builder
 		for _, p := range f.pols {
+			scratch := p.Annotations()
+			scratch["intruder"] = "written by the caller into its own copy"
+			for k := range scratch {
+				if k != "intruder" {
+					delete(scratch, k)
+				}
+			}
 			an := p.Annotations()
 			var ks []string
 			for k, v := range an {
